@@ -81,7 +81,25 @@ def _board(bid, owner, declarer, plays, k, stats=None):
     for i in range(52):
         s = b.m.turn
         led = b.m.trick[0] if b.m.trick else None
-        case = b.case({'seat': A.SEATS[s]})
+        refused = []
+        if (i + k) % 3 == 0:
+            # states reached after REFUSED plays are reachable states too: offer inadmissible plays (out of turn, card of
+            # another seat, card already played) first; whether they are refused cleanly is C05's business, here only
+            # the playable sets afterwards are compared
+            for card, seat, what in PL.fault_candidates(b)[: 1 + (k + i) % 4]:
+                try:
+                    b.env.play_card_by_player(be.CARD[card], be.SEAT[seat])
+                except Exception:  # noqa
+                    refused.append([P.card_name(card), A.SEATS[seat]])
+            for o, ob in enumerate(b.obs):
+                for card, seat, what in PL.fault_candidates(b, observer=o)[(k + o) % 2: (k + o) % 2 + 1]:
+                    try:
+                        ob.play_card_by_player(be.CARD[card], be.SEAT[seat])
+                    except Exception:  # noqa
+                        pass
+            if stats is not None and refused:
+                stats.cls('states queried after refused plays')
+        case = b.case({'seat': A.SEATS[s], 'k': k, 'refused_before_query': refused})
         hand = set(b.hands[s])
         got = guard('current_available_cards_in_hand raises', case, b.env.current_available_cards_in_hand, be.SEAT[s])
         _expect(got, hand, led, "table manager's playable set is not the follow-suit set", case)
@@ -143,7 +161,7 @@ def replay(rec):
             hands[s].discard(x); m.play(x)
         while len(plays) < 52:
             plays.append((True, 0))
-        for k in range(3):
+        for k in ([c['k']] if 'k' in c else []) + list(range(3)):
             _board(contract[0], owner, contract[1], plays, k)
     except Violation as v:
         return v
